@@ -198,6 +198,9 @@ func runC01(c *Ctx) {
 		pol, _ := effectivePolicy(a)
 		want := evalOf(a, pol.Enforce, a.Obj.Pod).Allowed
 		c.Tag("c01.eligible")
+		if !apiValid(&a.Obj.Pod.Spec) {
+			c.Tag("c01.apiInvalidPod")
+		}
 		in := a.opJSON()
 		if g.Allowed != want {
 			c.Violate(Finding{Desc: fmt.Sprintf("pod request allowed=%v but the enforce policy %s says allowed=%v", g.Allowed, pol.Enforce.String(), want), Key: "verdict", Input: in, Go: g})
@@ -216,7 +219,11 @@ func runC01(c *Ctx) {
 		} else if *g.AnnEnforce != pol.Enforce.String() {
 			c.Violate(Finding{Desc: fmt.Sprintf("enforce-policy annotation %q, enforced policy %q", *g.AnnEnforce, pol.Enforce.String()), Key: "annotation", Input: in})
 		}
-	}, nil)
+	}, func(r *Rng, a *AdmitCase) {
+		// the model judges with the Standard's own evaluator whenever the pods involved are API-valid
+		ok := a.Obj.Pod == nil || apiValid(&a.Obj.Pod.Spec)
+		a.StdOracle = ok && !a.Syn
+	})
 }
 
 // ---------------------------------------------------------------- C06
